@@ -12,7 +12,8 @@ def gen_world(rng, kinds, big=False):
     W = rng.choice([1, 2, 2, 3, 4, 5, 6] + ([7, 8, 12] if big else []))
     top = 72 if big else 24
     N = rng.choice([1, 2, 3, rng.randint(1, top), rng.randint(4, top), rng.randint(10, top)])
-    w = dict(kind=kind, W=W, N=N, seed=rng.choice([0, 1, 5, rng.randint(0, 10 ** 6)]), implicit_rank=rng.random() < 0.3, pre_init_activity=rng.random() < 0.5)
+    w = dict(kind=kind, W=W, N=N, seed=rng.choice([0, 1, 5, rng.randint(0, 10 ** 6)]), implicit_rank=rng.random() < 0.3, pre_init_activity=rng.random() < 0.5,
+             launcher_env=rng.choice([None, None, None, dict(rank_base=rng.choice([0, 1, 2]), world=rng.choice([2, 4, 8]))]))
     if kind == "dist":
         r = rng.choice([1, 1, 2, 3, 4])
         w.update(num_repeats=r, drop_last=rng.random() < 0.5, shuffle=True if r > 1 else rng.random() < 0.75)
@@ -97,9 +98,15 @@ class FakeDist:
 class as_rank:
     """context: the code inside runs as rank r of W with torch.distributed 'initialised' (or not, if implicit is False)"""
 
+    launcher_env = [None]  # set per plan: environment a launcher (torchrun, SLURM) exported into every rank process
+
     def __init__(self, r, W, implicit, key=None):
         self.val = (r, W) if implicit else None
         self.key = key if key is not None else r
+        le = as_rank.launcher_env[0]
+        self.env = None
+        if le is not None and key != "ref":
+            self.env = {"RANK": str(le["rank_base"] + r), "WORLD_SIZE": str(le["world"]), "LOCAL_RANK": str(r)}
 
     last_rank = [None]
 
@@ -112,6 +119,10 @@ class as_rank:
             as_rank.last_rank[0] = self.key
         self.hash_ctx = salted_hash(f"rank-process/{self.key}")
         self.hash_ctx.__enter__()
+        import os
+        self.saved_env = {k: os.environ.get(k) for k in ("RANK", "WORLD_SIZE", "LOCAL_RANK")}
+        if self.env is not None:
+            os.environ.update(self.env)
         self.saved = (kud.dist, tudd.dist, FakeDist.current[0])
         if self.val is not None:
             kud.dist = FakeDist
@@ -123,6 +134,12 @@ class as_rank:
         import torch.utils.data.distributed as tudd
         kud.dist, tudd.dist, FakeDist.current[0] = self.saved
         self.hash_ctx.__exit__()
+        import os
+        for k, v in self.saved_env.items():
+            if v is None:
+                os.environ.pop(k, None)
+            else:
+                os.environ[k] = v
 
 
 def make_sampler(w, dataset, rank, W, implicit=False):
@@ -162,7 +179,7 @@ def gen_plan(seed, kinds, big=False):
     rf = st("faults")
     faults = []
     for _ in range(rf.choice([0, 1, 2, 3])):
-        faults.append(dict(kind=rf.choice(["restart", "clobber", "clobber", "reiter", "peek"]), rank=rf.randrange(w["W"]),
+        faults.append(dict(kind=rf.choice(["restart", "clobber", "clobber", "reiter", "peek", "prefetch_next"]), rank=rf.randrange(w["W"]),
                            pos=rf.randrange(len(epochs)), at=rf.randint(0, 6), which=rf.choice(["py", "np", "torch", "advance"]),
                            seed=rf.randint(0, 999)))
     return dict(world=w, epochs=epochs, faults=faults, sched_seed=st("sched").getrandbits(32), amb_seed=st("amb").getrandbits(31))
@@ -188,6 +205,11 @@ def run_cluster(plan, out):
     implicit = bool(w.get("implicit_rank"))
     if implicit:
         out.count("fault:rank_from_simulated_process_group")
+    # launcher variables are only a fault when nothing initialised a process group: explicit arguments (or the documented
+    # defaults rank 0 / world size 1) must win over whatever the environment says
+    as_rank.launcher_env[0] = w.get("launcher_env") if not implicit else None
+    if as_rank.launcher_env[0] is not None:
+        out.count("fault:launcher_environment_variables_without_process_group")
 
     def construct(r):
         if implicit and w.get("pre_init_activity"):
@@ -243,7 +265,23 @@ def run_cluster(plan, out):
                 if fi in fired or f["rank"] != r or f["kind"] in ("reiter", "peek") or len(streams[r]) < f["at"]:
                     continue
                 fired.add(fi)
-                if f["kind"] == "clobber":
+                if f["kind"] == "prefetch_next":
+                    # a prefetching consumer announces the NEXT epoch and starts its iterator while the current epoch's
+                    # iterator is still alive; the rest of the current epoch must still come from the current epoch's draw
+                    if w["kind"] != "random":
+                        nxt = plan["epochs"][pos + 1] if pos + 1 < len(plan["epochs"]) else e + 1
+                        with procs[r].on_cpu(), as_rank(r, W, implicit):
+                            if hasattr(samplers[r], "set_epoch"):
+                                samplers[r].set_epoch(nxt)
+                            ahead = iter(samplers[r])
+                            try:
+                                next(ahead)
+                            except StopIteration:
+                                pass
+                            if hasattr(samplers[r], "set_epoch"):
+                                samplers[r].set_epoch(e)  # the epoch attribute is put back; live iterators keep what they drew
+                        out.count("fault:next_epoch_started_while_current_iterator_alive")
+                elif f["kind"] == "clobber":
                     procs[r].clobber(f["which"], f["seed"])
                     out.count("fault:ambient_rng_clobber")
                 elif f["kind"] == "restart":
